@@ -279,6 +279,16 @@ func (r *SexpArray) Type() *RegisteredType {
 }
 
 func (arr *SexpArray) SexpString(ps *PrintState) string {
+	if ps == nil {
+		ps = NewPrintState()
+	}
+	if ps.GetSeen(arr) {
+		// an array that contains itself: (aset a 0 a)
+		return "[...]"
+	}
+	ps.SetSeen(arr, "SexpArray")
+	defer ps.Unsee(arr)
+
 	indInner := ""
 	indent := ps.GetIndent()
 	innerPs := ps.AddIndent(4) // generates a fresh new PrintState
